@@ -23,7 +23,10 @@ import (
 // FAIL, not kill the check). The child records an event log with a global atomic sequence and checks the property
 // directly on it.
 //
-//	run <workers> <depth> <gomaxprocs> <submitters> <tasks> <panic%> <handlerPanics 0|1> <inCap|-1> <pace 0|1> <seed>
+//	run <workers> <depth> <gomaxprocs> <submitters> <tasks> <panic%> <handler mode> <inCap|-1> <pace 0|1> <seed>
+//
+// handler mode: 0 recording handler, 1 no RecoveryHandler option, 2 RecoveryHandler(nil), 3 handler that records and
+// then panics for every second task.
 
 type stressArea struct{}
 
@@ -47,8 +50,8 @@ func (stressArea) Gen(r *hx.Rng, n int, tier string, emit func(string)) {
 		}
 		panicPct := hx.Pick(r, []int{0, 0, 5, 30, 100})
 		hp := 0
-		if panicPct > 0 && r.Chance(1, 3) {
-			hp = 1
+		if panicPct > 0 {
+			hp = hx.Pick(r, []int{0, 0, 1, 1, 2, 3})
 		}
 		inCap := hx.Pick(r, []int{-1, -1, 1, 2, 5})
 		pace := 0
@@ -59,17 +62,20 @@ func (stressArea) Gen(r *hx.Rng, n int, tier string, emit func(string)) {
 	}
 }
 
-var stressFailures int
+var stressFailures, stressHangs int
 
 func (a stressArea) Run(line string) string {
-	if stressFailures >= 4 {
+	if stressFailures >= 4 || stressHangs >= 2 {
 		// the verdict of the run is already FAIL (the first failures are reported); do not spend a watchdog period on
 		// each of the remaining configurations
-		return "ok skipped: 4 configurations have already failed in this run"
+		return "ok skipped: configurations have already failed in this run (4 failures or 2 hangs)"
 	}
 	out := a.run1(line)
 	if strings.HasPrefix(out, "FAIL") {
 		stressFailures++
+		if strings.HasPrefix(out, "FAIL hang") {
+			stressHangs++
+		}
 	}
 	return out
 }
@@ -79,7 +85,7 @@ func (stressArea) run1(line string) string {
 	if len(f) != 11 || f[0] != "run" {
 		return "bad-op"
 	}
-	ctx, cancel := context.WithTimeout(context.Background(), 40*time.Second)
+	ctx, cancel := context.WithTimeout(context.Background(), 60*time.Second)
 	defer cancel()
 	cmd := exec.CommandContext(ctx, os.Args[0], append([]string{"child-stress"}, f[1:]...)...)
 	cmd.Env = append(os.Environ(), "GOMAXPROCS="+f[3], "GOTRACEBACK=single")
@@ -89,7 +95,7 @@ func (stressArea) run1(line string) string {
 	err := cmd.Run()
 	first := strings.TrimSpace(strings.SplitN(so.String(), "\n", 2)[0])
 	if ctx.Err() != nil {
-		return "FAIL hang: the child process did not end within 40s (" + first + ")"
+		return "FAIL hang: the child process did not end within 60s (" + first + ")"
 	}
 	if err != nil {
 		msg := ""
@@ -118,7 +124,8 @@ func stressChild(args []string) {
 	}
 	workers, depth, procs := hx.Atoi(args[0]), hx.Atoi(args[1]), hx.Atoi(args[2])
 	subs, tasks, panicPct := hx.Atoi(args[3]), hx.Atoi(args[4]), hx.Atoi(args[5])
-	handlerPanics, inCap, pace := args[6] == "1", hx.Atoi(args[7]), args[8] == "1"
+	mode, inCap, pace := hx.Atoi(args[6]), hx.Atoi(args[7]), args[8] == "1"
+	handlerPanics := mode == 3
 	seed := uint64(hx.Atoi(args[9]))
 	runtime.GOMAXPROCS(procs)
 
@@ -152,30 +159,48 @@ func stressChild(args []string) {
 		return n
 	}
 	go func() { // watchdog: a hang is a failure of the property (Shutdown must return), reported with the state reached
-		time.Sleep(20 * time.Second)
+		// hang = the event sequence has not advanced for 3 s (a slow machine still makes progress), or 40 s in total
+		start := time.Now()
+		last, since := seq.Load(), time.Now()
+		for {
+			time.Sleep(100 * time.Millisecond)
+			if cur := seq.Load(); cur != last {
+				last, since = cur, time.Now()
+			}
+			if time.Since(since) > 3*time.Second || time.Since(start) > 40*time.Second {
+				break
+			}
+		}
 		returned := 0
 		for i := range retSeq {
 			if retSeq[i].Load() != 0 {
 				returned++
 			}
 		}
-		fmt.Printf("FAIL hang: after 20s %d/%d Submit calls returned, %d tasks started, %d finished, Shutdown called=%v and not returned\n",
-			returned, tasks, sum(startCnt), sum(finCnt), shutCalled.Load() != 0)
+		fmt.Printf("FAIL hang: no event for 3s (%.0fs after the start): %d/%d Submit calls returned, %d tasks started, %d finished, Shutdown called=%v and not returned\n",
+			time.Since(start).Seconds(), returned, tasks, sum(startCnt), sum(finCnt), shutCalled.Load() != 0)
 		os.Exit(0)
 	}()
 
-	opts := []taskqueue.Option{taskqueue.Workers(workers), taskqueue.Depth(depth),
-		taskqueue.RecoveryHandler(func(err error) {
-			var pe *stressPanic
-			if errors.As(err, &pe) && pe.id >= 0 && pe.id < tasks {
-				recCnt[pe.id].Add(1)
-				if handlerPanics && pe.id%2 == 0 {
-					panic("bad recovery handler")
-				}
-			} else {
-				badRec.Add(1)
+	opts := []taskqueue.Option{taskqueue.Workers(workers), taskqueue.Depth(depth)}
+	handler := func(err error) {
+		var pe *stressPanic
+		if errors.As(err, &pe) && pe.id >= 0 && pe.id < tasks {
+			recCnt[pe.id].Add(1)
+			if handlerPanics && pe.id%2 == 0 {
+				panic("bad recovery handler")
 			}
-		})}
+		} else {
+			badRec.Add(1)
+		}
+	}
+	switch mode {
+	case 1: // the default: no handler, panics are swallowed silently
+	case 2:
+		opts = append(opts, taskqueue.RecoveryHandler(nil))
+	default:
+		opts = append(opts, taskqueue.RecoveryHandler(handler))
+	}
 	if inCap > 0 {
 		opts = append(opts, taskqueue.VerifInCap(inCap))
 	}
@@ -269,7 +294,7 @@ func stressChild(args []string) {
 			fail("task %d finished after Shutdown returned (or never)", id)
 		}
 		want := int32(0)
-		if panics[id] {
+		if panics[id] && mode != 1 && mode != 2 {
 			want = 1
 		}
 		if c := recCnt[id].Load(); c != want {
